@@ -468,7 +468,11 @@ class Check(PropertyCheck):
                   "listening on both, same port, explicit listen address up to case/trailing dot/notation/IPv4-mapping, any "
                   "loopback name or address when listening on loopback or all interfaces, or the wildcard address — is "
                   "recognised by the model of Proxyserver.server_connect), blocked_sets_error_and_no_connect, "
-                  "own_socket_never_connected, not_blocked_reaches_socket, the spelling classes one by one, and over HISTORIES: "
+                  "own_socket_never_connected, not_blocked_reaches_socket, the spelling classes one by one — for the text forms "
+                  "themselves, without parse hypotheses, via the C22 read-back theorems and normHost fixed points: "
+                  "every_127_address_blocked (`127.b.c.d` for all b,c,d), every_mapped_127_address_blocked "
+                  "(`::ffff:127.b.c.d`), listen_address_dotted_blocked (the listen address as dotted quad or IPv4-mapped) — "
+                  "and over HISTORIES: "
                   "the listener set is state changed by a transcription of Servers.update (instances of kept specs kept, new "
                   "specs started, the rest dropped, server=False drops all); history_never_connects_to_current_own_socket proves "
                   "by induction over every history of reconfigurations and connection attempts that an attempt at a socket of the "
@@ -483,7 +487,8 @@ class Check(PropertyCheck):
                   "listening instance is listed at every moment of every event sequence (instances going away stay listed until "
                   "stopped, new ones are listed before they start), and inflight_never_connects_to_listening_socket that an "
                   "attempt at a socket LISTENING at that moment is killed whether or not the update binding or closing it has "
-                  "finished. "
+                  "finished; update_is_settled_view / settled_update_blocks tie the two listener models: after the events of one "
+                  "complete update the per-event guard view contains every listener the per-update model predicts. "
                   "Tie: the real Proxyserver addon through the real AddonManager and ProxyConnectionHandler.open_connection on "
                   "~90 spellings x 33 listen configurations x transports x ports x connect outcome, stub-listener histories "
                   "(per call AND as one stateful `run`), 2-5 attempts on the SAME Server object through the same handler "
